@@ -89,6 +89,15 @@ func isWatcherPosAddr(addr ssa.Value) bool {
 }
 
 func isWatcherPos(v ssa.Value) bool {
+	// the position decoded from a bookmark is the same quantity (it is what pos is set from)
+	if ex, ok := v.(*ssa.Extract); ok && ex.Index == 0 {
+		if call, ok := ex.Tuple.(*ssa.Call); ok {
+			if g := call.Call.StaticCallee(); g != nil && g.Name() == "decodeBookmark" {
+				return true
+			}
+		}
+	}
+
 	load, ok := v.(*ssa.UnOp)
 
 	return ok && load.Op == token.MUL && isWatcherPosAddr(load.X)
@@ -285,9 +294,40 @@ func runC02(c *Ctx) {
 			for _, in := range Find(f, func(in ssa.Instruction) bool {
 				st, ok := in.(*ssa.Store)
 
-				return ok && Glob("var:[]pkg/resource.Resource", p.Desc(st.Addr))
+				return ok && Glob("var:[]pkg/resource.Resource*", p.Desc(st.Addr))
 			}) {
 				v := Fwd(in.(*ssa.Store).Val)
+
+				// (any local slice of resources: the snapshot may be accumulated in a helper's local and
+				// handed over — nil, make, append under the lock, or a copy of another such local)
+				isLocalCopy := func(x ssa.Value) bool {
+					u, ok := x.(*ssa.UnOp)
+					if !ok || u.Op != token.MUL {
+						return false
+					}
+
+					_, isAlloc := u.X.(*ssa.Alloc)
+
+					return isAlloc && Glob("var:[]pkg/resource.Resource*", p.Desc(u.X))
+				}
+
+				if isLocalCopy(v) {
+					continue
+				}
+
+				if _, isPhi := v.(*ssa.Phi); isPhi {
+					allLocal := true
+
+					for _, l := range PhiLeaves(v) {
+						if !isLocalCopy(l) {
+							allLocal = false
+						}
+					}
+
+					if allLocal {
+						continue
+					}
+				}
 
 				switch x := v.(type) {
 				case *ssa.Const, *ssa.MakeSlice:
